@@ -62,8 +62,9 @@ fn run_case(f: &[String]) -> String {
 const NAMES: &[&[u8]] = &[b"A", b"B", b"PATH", b"A.b", b"\xffz", b"", b"A=", b"a"];
 // values double as delimiters: include line breaks, tabs, multi-byte delimiters with a trailing newline, '=' and NUL
 const VALS: &[&[u8]] = &[b"", b"x", b"y", b"/bin:/usr/bin", b"\xfe\x00", b":", b" ", b";\n", b",\r\n", b"\n", b"\r\n", b"a\nb", b"\t", b"=", b"::"];
-const SCOPES: &[&str] = &["A", "B", "L", "P:776562", "P:776f726b6572"];
-const QSCOPES: &[&str] = &["A", "B", "L", "P:776562", "P:776f726b6572", "P:6e6f6e65"];
+const SCOPES: &[&str] = &["A", "B", "L", "P:776562", "P:776f726b6572", "P:6275696c64", "P:6c61756e6368"];
+// query scopes incl. an unknown process and process types named like the phases
+const QSCOPES: &[&str] = &["A", "B", "L", "P:776562", "P:776f726b6572", "P:6e6f6e65", "P:6275696c64", "P:6c61756e6368"];
 const BEHS: &[&str] = &["a", "d", "m", "o", "p"];
 
 fn mk_case(qs: &str, env: &[(Vec<u8>, Vec<u8>)], ins: &[Ins], kind: &str) -> Case {
